@@ -9,6 +9,7 @@ Trace : Trace_Pool.tla (search mode: TLC places the atomic effects) decides ever
 """
 import collections
 import json
+import re
 import random
 
 from .. import memnet, tlc, util
@@ -263,7 +264,7 @@ def server_refusal(ctx, config):
                         rec["other"].append("wrong answer")
                 except errors.CommunicationError as x:
                     rec["refused"] += 1
-                    if "no free workers" not in str(x):
+                    if not re.search(r"worker|thread|pool|busy|capacity|full", str(x), re.I):      # the failure must say why
                         rec["reason_ok"] = False
                         rec["other"].append(str(x)[:80])
                 except BaseException as x:     # noqa
